@@ -69,8 +69,14 @@ func isIfaceOrReader(prm *ssa.Parameter) bool {
 func debugWorkers(p *Program, spec string) {
 	i := strings.LastIndex(spec, ":")
 	fn := p.Func(spec[:i], spec[i+1:])
-	sites, _, err := analyseWorkers(p, fn)
+	sites, outs, err := analyseWorkers(p, fn)
 	fmt.Println("err:", err, "sites:", len(sites))
+	for _, o := range outs {
+		fmt.Println("--- outcome", o.Kind, p.Pos(o.Pos))
+		for _, c := range o.St.conds {
+			fmt.Println("   cond", trunc(c.Key(), 200))
+		}
+	}
 	for _, s := range sites {
 		fmt.Println("=== site", s.Pos, "closure", shortFn(s.Closure), "err:", s.Err)
 		for _, c := range s.Conds {
